@@ -188,6 +188,15 @@ theorem C19_deep_distance_positive_positional_lists (cfg : DCfg) (hp : Diff.Plai
     0 < (deepDistance cfg al hashOf (.list xs) (.list ys)).1 :=
   list_deep_pos cfg hp hz al hashOf xs ys hbx hby hne
 
+/-- the hypotheses of the positional positivity theorem are met by a configuration and a pair with a value change and an added tail -/
+example (al : Align) (hashOf : PyVal → String) :
+    Diff.Plain ({ zip := true } : DCfg) ∧
+    (deepDiff ({ zip := true } : DCfg) al hashOf (.list [.int 1, .str "a"]) (.list [.int 2, .str "a", .float 15 1])).tree ≠ [] := by
+  have hp : Diff.Plain ({ zip := true } : DCfg) := ⟨rfl, rfl, rfl⟩
+  refine ⟨hp, ?_⟩
+  rw [list_deepDiff_of_tree _ hp al hashOf _ _ (list_diffV_zip _ hp rfl al hashOf _ _ (by simp [isBasic]))]
+  simp [listT]
+
 /-- **deep_distance of two sets of scalars**: the numerator is the number of counted members removed or added (`_diff_set` decides
 membership by the item hash `hashOf`, any hash), the denominator the two sizes plus the two containers, and the numerator stays
 2 below it: the distance lies in [0, 1) -/
@@ -212,6 +221,13 @@ theorem C19_deep_distance_positive_sets (cfg : DCfg) (hp : Diff.Plain cfg) (al :
     (hne : (deepDiff cfg al hashOf (.set xs) (.set ys)).tree ≠ []) :
     0 < (deepDistance cfg al hashOf (.set xs) (.set ys)).1 :=
   set_deep_pos cfg hp al hashOf xs ys hbx hby hne
+
+/-- ... and of two frozensets -/
+theorem C19_deep_distance_positive_frozensets (cfg : DCfg) (hp : Diff.Plain cfg) (al : Align) (hashOf : PyVal → String)
+    (xs ys : List PyVal) (hbx : ∀ x ∈ xs, isBasic x = true ∧ x ≠ .none) (hby : ∀ y ∈ ys, isBasic y = true ∧ y ≠ .none)
+    (hne : (deepDiff cfg al hashOf (.frozenset xs) (.frozenset ys)).tree ≠ []) :
+    0 < (deepDistance cfg al hashOf (.frozenset xs) (.frozenset ys)).1 :=
+  frozenset_deep_pos cfg hp al hashOf xs ys hbx hby hne
 
 /-- the excluded member is a real exception: `{None}` against the empty set has a non-empty diff and numerator 0 (F17a on sets) -/
 theorem C19_N_set_of_none (cfg : DCfg) (hp : Diff.Plain cfg) (al : Align) (hashOf : PyVal → String) :
